@@ -99,6 +99,13 @@ func (c *Ctx) Pick(q, t int) int {
 	return q
 }
 
+func (c *Ctx) PickInts(q, t []int) []int {
+	if c.Thorough() {
+		return t
+	}
+	return q
+}
+
 func (c *Ctx) Infra(format string, a ...interface{}) {
 	c.mu.Lock()
 	c.infraErr = append(c.infraErr, fmt.Sprintf(format, a...))
